@@ -19,7 +19,7 @@ use serde_json::{json, Value};
 pub struct C12;
 
 /// (name, setup forms, garbage expression using loop variable i, driven-from-harness?)
-const LOOP_KINDS: [(&str, &str); 16] = [
+const LOOP_KINDS: [(&str, &str); 18] = [
     ("pairs", "(cons i i)"),
     ("lists", "(list i (list i i) i)"),
     ("vectors", "(make-vector 8 i)"),
@@ -33,6 +33,10 @@ const LOOP_KINDS: [(&str, &str); 16] = [
     ("checkpoint-continuations", "(c12-checkpoint)"),
     ("eval-code", "(eval (list '+ i 1))"),
     ("eval-lambdas", "((eval (list 'lambda '(x) (list '+ 'x i))) 1)"),
+    // code built at run time whose lexical variables have fresh names every time (generated code)
+    ("eval-lambdas-with-fresh-parameter-names", "((eval (list 'lambda (list (string->symbol (string-append \"c12-p\" (number->string i)))) (string->symbol (string-append \"c12-p\" (number->string i))))) i)"),
+    // library procedures that build a whole list, vector or string within one instruction
+    ("bulk-allocating-builtins", "(list (reverse (vector->list (make-vector 40 i))) (list->vector (string->list (make-string 30 #\\b))) (string-append (make-string 20 #\\a) (number->string i)))"),
     ("interned-symbols", "(string->symbol (string-append \"c12-sym-\" (number->string i)))"),
     ("bignums", "(* 4294967296 4294967296 (+ i 1))"),
     ("floats-and-rationals", "(list (* 1.5 i) (/ (+ i 1) 7))"),
@@ -58,13 +62,15 @@ struct Measure {
     collections: u64,
 }
 
-fn measure(s: &SutSession) -> Measure {
-    Measure {
-        heap_cap: s.vm.verif_heap().verif_cells().len(),
-        stack_cap: s.vm.verif_stack().len(),
-        bytes: live_bytes(),
-        collections: s.vm.verif_collections(),
-    }
+fn measure(s: &mut SutSession) -> Measure {
+    let heap_cap = s.vm.verif_heap().verif_cells().len();
+    let stack_cap = s.vm.verif_stack().len();
+    let collections = s.vm.verif_collections();
+    // process memory is compared right after a collection: between collections it also holds the
+    // buffers of garbage strings and vectors that the next collection frees, an amount that
+    // depends on where in the collector's cycle the loop happened to stop
+    s.vm.verif_force_gc();
+    Measure { heap_cap, stack_cap, bytes: live_bytes(), collections }
 }
 
 fn eval_ok(s: &mut SutSession, f: &Sx) -> Result<Sx, String> {
@@ -126,14 +132,24 @@ fn run_template_with(ctx: &Ctx, kind: &str, live: usize, n: usize, sliced: bool,
         }
         Ok(())
     };
+    // a workload that allocates hundreds of cells per instruction settles late: the heap has to
+    // hold what can be allocated between two of the collector's periodic checks (every 8192
+    // instructions), and it approaches that size in steps of 1.5x. Measured: plateau of 98,304
+    // cells reached after ~10^5 iterations. The plateau is what the property is about, so such a
+    // workload is warmed up before the two measurements.
+    if kind == "bulk-allocating-builtins" {
+        if let Err(e) = run_iters(&mut s, 0, 150_000) {
+            return Some((format!("C12|{}|did-not-complete", kind), e));
+        }
+    }
     if let Err(e) = run_iters(&mut s, 0, n) {
         return Some((format!("C12|{}|did-not-complete", kind), e));
     }
-    let m1 = measure(&s);
+    let m1 = measure(&mut s);
     if let Err(e) = run_iters(&mut s, n, 10 * n) {
         return Some((format!("C12|{}|did-not-complete", kind), e));
     }
-    let m2 = measure(&s);
+    let m2 = measure(&mut s);
     // the live set must be intact
     match eval_ok(&mut s, &read("(c12-sum c12-live 0)").unwrap()) {
         Ok(v) => {
@@ -186,12 +202,12 @@ impl Prop for C12 {
         "C12"
     }
     fn rule(&self) -> &'static str {
-        "garbage-producing loop templates, one per allocation kind (pairs, lists, vectors, strings, closures and their environments, continuations, checkpoint continuations handed to a recording helper after an earlier 600-deep recursion, code compiled by eval, lambdas compiled by eval, interned symbols, bignums, floats/rationals, promises, mixed) and six harness-driven kinds (successive top-level evaluations, redefinition of one global, fresh quoted symbols, a lambda per evaluation, fresh unbound global names, evaluations that fail at compile time after allocating a literal) x live-set size {0, 10, 1000 pairs; for six kinds also 1000 records of about 12 cells each, so that the live data outgrows the first heap chunk} x n and 10n (quick n=5000, thorough n=10^5). Heap capacity, stack capacity and process live bytes after 10n must be <= 1.5x the values after n + slack (8192 cells / 256 slots / 1 MiB); the live set's checksum must be intact; after every collection no cell unreachable by the harness' traversal may remain allocated. Non-trivial: at least 3 collections happened; distinct by (kind, live, n)."
+        "garbage-producing loop templates, one per allocation kind (pairs, lists, vectors, strings, closures and their environments, continuations, checkpoint continuations handed to a recording helper after an earlier 600-deep recursion, code compiled by eval, lambdas compiled by eval (also with fresh parameter names every time), builtins that allocate a whole list/vector/string in one instruction, interned symbols, bignums, floats/rationals, promises, mixed) and six harness-driven kinds (successive top-level evaluations, redefinition of one global, fresh quoted symbols, a lambda per evaluation, fresh unbound global names, evaluations that fail at compile time after allocating a literal) x live-set size {0, 10, 1000 pairs; for eight kinds also 1000 records of about 12 cells each, so that the live data outgrows the first heap chunk} x n and 10n (quick n=5000, thorough n=10^5). Heap capacity, stack capacity and process live bytes after 10n must be <= 1.5x the values after n + slack (8192 cells / 256 slots / 1 MiB); the live set's checksum must be intact; after every collection no cell unreachable by the harness' traversal may remain allocated. Non-trivial: at least 3 collections happened; distinct by (kind, live, n)."
     }
     fn assumptions(&self) -> Vec<&'static str> {
         vec![
             "growth is decided at n vs 10n with a threshold a one-cell-per-iteration leak exceeds several times over; not proved for all n",
-            "process live bytes come from a counting global allocator in the harness binary (includes the harness' own small bookkeeping)",
+            "process live bytes come from a counting global allocator in the harness binary (includes the harness' own small bookkeeping) and are read right after a forced collection",
         ]
     }
     fn run(&self, ctx: &Ctx) {
@@ -216,7 +232,7 @@ impl Prop for C12 {
         }
         // a live set of 1000 records (about 12 cells each): the live data alone is larger than
         // the first heap chunk
-        for kind in ["pairs", "strings", "closures", "continuations", "mixed", "successive-evaluations"] {
+        for kind in ["pairs", "strings", "closures", "continuations", "mixed", "successive-evaluations", "bulk-allocating-builtins", "eval-lambdas-with-fresh-parameter-names"] {
             idx += 1;
             if idx % ctx.nshards != ctx.shard {
                 continue;
